@@ -40,4 +40,14 @@ def Addr.Valid (a : Addr) : Prop := (a.ip.length = 4 ∨ a.ip.length = 16) ∧ a
 /-- the address itself, whichever of its two spellings was used (`a.b.c.d` = `::ffff:a.b.c.d`) -/
 def canon (a : Addr) : Bytes × Nat := (to16 a.ip, a.port)
 
+/-- `net.IP.Equal` (used by `ipnet.AddrEqual`: channel bindings are looked up by peer address with it) -/
+def ipEqual (a b : Bytes) : Bool :=
+  if a.length = b.length then a == b
+  else if a.length = 4 ∧ b.length = 16 then b == v4prefix ++ a
+  else if a.length = 16 ∧ b.length = 4 then a == v4prefix ++ b
+  else false
+
+/-- `ipnet.AddrEqual` on two addresses of the same Go type -/
+def addrEqual (a b : Addr) : Bool := ipEqual a.ip b.ip && a.port == b.port
+
 end Turn.FT
